@@ -265,6 +265,20 @@ def run(ctx: Ctx) -> Result:
         f = vmrun.fields(o); top = f.get('stack', '-').split(',')[-1]
         if f['status'] != 'OK' or top in ('-', 'e') or bytes.fromhex(top) != ref_i2b(n):
             viol('DEPTH', {'items': n}, 'the count as a signed integer: ' + ref_i2b(n).hex(), f['status'] + ' stack top ' + top[:40])
+    # decimal literals of every magnitude reach the byte code as the encoding of exactly that integer (no detour through a float)
+    from .. import impl as _impl
+    Pp = _impl.parsing()
+    lit = [n for n in int_cases(ctx) if 0 < len(ref_i2b(n)) <= 200]
+    lit = [lit[i] for i in range(0, len(lit), max(1, len(lit) // ctx.n(400, 4000)))] + [2**53 + 1, -(2**53 + 1), 2**64 - 1, 10**30 + 7, -(10**40) - 3, 9007199254740993]
+    for n in lit:
+        e = ref_i2b(n)
+        res.note_case(('literal', n))
+        for src, want in ((f'OP_PUSH1 d{n} true', bytes([3, len(e)]) + e + b'\x01'), (f'push d{n}', (bytes([2]) if len(e) == 1 else bytes([3, len(e)])) + e),
+                          (f'div_int d{n}', bytes([N['DIV_INT'], len(e)]) + e), (f'mod_int d{n}', bytes([N['MOD_INT'], len(e)]) + e)):
+            try: got = Pp.compile_script(src)
+            except BaseException as ex: got = ('ERR:' + type(ex).__name__).encode()
+            if got != want:
+                viol('compile_script(' + src[:60] + ('...' if len(src) > 60 else '') + ')', {'source': src[:300]}, want.hex()[:120], got.hex()[:120] if not got.startswith(b'ERR:') else got.decode())
     res.stats['integer_instruction_cases'] = nops
     if ctx.driver.available and run_lines:
         try:
